@@ -104,13 +104,16 @@ func (d *Provider) Get(name string) (interface{}, error) {
 	if factory, exist := d.factories[name]; exist {
 		d.callstack = append(d.callstack, name)
 		instance, err := factory(d)
+		// leave the resolution stack whatever the factory answered: a failed resolution must
+		// not make the next request for the same name look like a cycle
+		callstack := d.callstack
+		d.callstack = d.callstack[:len(d.callstack)-1]
 		if err != nil {
-			return nil, goaterr.Errorf("%v (dependency callstack: %v)", err, d.callstack)
+			return nil, goaterr.Errorf("%v (dependency callstack: %v)", err, callstack)
 		}
 		if instance == nil {
 			return nil, goaterr.Errorf("factory for %s return nil as instance", name)
 		}
-		d.callstack = d.callstack[:len(d.callstack)-1]
 		d.clean(name)
 		d.instances[name] = instance
 		return instance, nil
@@ -118,13 +121,14 @@ func (d *Provider) Get(name string) (interface{}, error) {
 	if factory, exist := d.defaultFactories[name]; exist {
 		d.callstack = append(d.callstack, name)
 		instance, err := factory(d)
+		callstack := d.callstack
+		d.callstack = d.callstack[:len(d.callstack)-1]
 		if err != nil {
-			return nil, goaterr.Errorf("%v (dependency callstack: %v)", err, d.callstack)
+			return nil, goaterr.Errorf("%v (dependency callstack: %v)", err, callstack)
 		}
 		if instance == nil {
 			return nil, goaterr.Errorf("default factory for %s return nil as instance", name)
 		}
-		d.callstack = d.callstack[:len(d.callstack)-1]
 		if d.autoclean {
 			delete(d.defaultFactories, name)
 		}
